@@ -292,7 +292,7 @@ func Run(cfg Cfg, ctx *explore.Ctx) Result {
 		}
 		out = kept
 		if len(out) > 0 {
-			if cfg.Republish && vanished && !republished {
+			if cfg.Republish && (vanished || isCorrupt("c", "only")) && !republished {
 				out = append(out, sched.Choice{Label: "c-publishes-again", Cost: 1, Act: &sched.Action{Do: func() {
 					republished = true
 					put("c", 4, false)
